@@ -56,6 +56,11 @@ class Env:
 
     def set(self, k, v, seq):
         self.vars.setdefault(k, []).append((seq, v))
+        if not k.startswith("#"):
+            # a new binding of this name (possibly shadowing an outer one): facts recorded about the outer variable do not describe it
+            for pre in ("#ref:", "#guard:", "#len:"):
+                if self.get(pre + k, seq) is not None:
+                    self.vars.setdefault(pre + k, []).append((seq, ("dead",)))
 
     def get(self, k, at=None):
         e = self
@@ -133,7 +138,8 @@ class Ranger:
                 return self.len_bound(n[1], env, at)
             if t == "local":
                 if n[1] in self.grown:
-                    return None
+                    lf = env.get("#len:" + n[1], at)
+                    return lf[1] if lf is not None and lf[0] == "len" else None
                 b = env.get(n[1], at)
                 if b is not None and b[0] == "expr":
                     m = re.search(r"; (\d+)\]$", (b[3] or "").replace("&mut ", "").replace("&", ""))
@@ -189,7 +195,7 @@ class Ranger:
             return None
         body = H.strip(fn["hir"])
         n_nodes = sum(1 for _ in H.walk(body))
-        if n_nodes > 120 or any(H.tag(x) in ("for", "while", "loop", "ret") for x in H.walk(body)):
+        if n_nodes > 2500 or any(H.tag(x) in ("for", "while", "loop", "ret") for x in H.walk(body)):
             return None
         e2 = Env()
         for p, a in zip(fn["params"], args):
@@ -622,6 +628,8 @@ class Walker:
         self.on_node = on_node
         self.seq = 0
         self.last_assign = {}
+        self.block_tail = {}
+        self._keep = []
 
     def bind_let(self, st, env):
         self.seq += 1
@@ -629,6 +637,23 @@ class Walker:
         if H.tag(pat) == "bind":
             if st[2] is not None:
                 env.set(pat[1], ("expr", st[2], env, pat[4], self.seq - 1), self.seq)
+                init = H.strip(st[2])
+                r0 = None
+                if H.tag(init) == "block" and init[1]:
+                    r0 = self.block_tail.get(id(init))
+                elif pat[1] in self.r.mutated:
+                    # a local that is changed later: what its initialiser says holds until the first change (assigned() transfers or kills it)
+                    r0 = self.r.rng(st[2], env, self.seq - 1)
+                tr0 = ty_range(pat[4]) if pat[4] else None
+                if r0 is not None and tr0 is not None and r0[0] <= tr0[1] and tr0[0] <= r0[1]:
+                    # a value of the type lies within the type (an overflow on the way is a panic site of its own)
+                    r0 = (max(r0[0], tr0[0]), min(r0[1], tr0[1]))
+                if H.tag(init) == "call" and re.search(r"(Vec|VecDeque|String)(::<[^>]*>)?::(new|with_capacity)$", H.call_path(init) or ""):
+                    self.seq += 1
+                    env.set("#len:" + pat[1], ("len", 0), self.seq)
+                if r0 is not None and (tr0 is None or (tr0[0] <= r0[0] and r0[1] <= tr0[1] and r0 != tr0)):
+                    self.seq += 1
+                    env.set("#ref:" + pat[1], ("ref", r0[0], r0[1]), self.seq)
             else:
                 env.set(pat[1], ("type", pat[4]), self.seq)
         elif H.tag(pat) == "ptup":
@@ -645,6 +670,31 @@ class Walker:
             for q in H.walk(pat):
                 if H.tag(q) == "bind":
                     env.set(q[1], ("type", q[4]), self.seq)
+
+    def pat_range(self, pat):
+        """(lo, hi) of the integers an integer literal / range pattern matches, else None"""
+        def val(p):
+            if p is None:
+                return None
+            if H.tag(p) == "lit" and p[1] == "int":
+                return int(p[2])
+            if H.tag(p) in ("ppath", "path"):
+                m = re.search(r"<impl ([iu](?:8|16|32|64|128|size))>::(MAX|MIN)$", p[1])
+                if m:
+                    tr = ty_range(m.group(1))
+                    return tr[1] if m.group(2) == "MAX" else tr[0]
+                return self.r.consts(p[1])
+            return None
+        if H.tag(pat) == "lit" and pat[1] == "int":
+            return (int(pat[2]), int(pat[2]))
+        if H.tag(pat) == "prange" and pat[1] is not None and pat[2] is not None:
+            lo, hi = val(pat[1]), val(pat[2])
+            if lo is None or hi is None:
+                return None
+            if pat[3] != "Included":
+                hi -= 1
+            return (lo, hi) if lo <= hi else None
+        return None
 
     def local_of(self, e):
         """the local an expression is a value-preserving view of (references, dereferences, widening casts), or None"""
@@ -773,6 +823,8 @@ class Walker:
         self.seq += 1
         for nm in mutated_names(n) | {H.local_name(H.strip(x[1])) for x in H.walk(n) if H.tag(x) == "refmut" and H.local_name(H.strip(x[1]))}:
             env.kill("#ref:" + nm, self.seq)
+        for nm in grown_names(n):
+            env.kill("#len:" + nm, self.seq)
 
     def updates_of(self, body, name):
         """-> list of constant ranges e of the updates `name += e` when these are the only changes of `name` in body, else None"""
@@ -794,6 +846,41 @@ class Walker:
                     return None
                 out.append(v)
         return out
+
+    def pushes_of(self, body, name):
+        """number of `name.push(..)` calls in a loop body when these are the only length-changing uses of `name` there and none of
+        them stands in an inner loop or closure; else None"""
+        def count(n, nested):
+            t = H.tag(n)
+            if t is None:
+                tot = 0
+                if isinstance(n, list):
+                    for c in n:
+                        if isinstance(c, list):
+                            r = count(c, nested)
+                            if r is None:
+                                return None
+                            tot += r
+                return tot
+            here = 0
+            if t == "mcall" and n[2] in Ranger.GROWING + ("clear", "truncate", "pop", "remove", "drain", "retain", "dedup", "swap_remove", "split_off") \
+                    and H.local_name(H.strip_refs(H.mcall(n)["recv"])) == name:
+                if n[2] not in ("push", "push_back", "push_front") or nested:
+                    return None
+                here = 1
+            if t == "refmut" and H.local_name(H.strip(n[1])) == name:
+                return None
+            if t in ("asg", "asgop") and H.local_name(H.strip(n[1] if t == "asg" else n[4])) == name:
+                return None
+            nested2 = nested or t in ("for", "while", "loop", "closure")
+            for c in n[1:]:
+                if isinstance(c, list):
+                    r = count(c, nested2)
+                    if r is None:
+                        return None
+                    here += r
+            return here
+        return count(body, False)
 
     def init_range(self, name, env):
         """range of a local where a loop starts (its initialiser or a recorded fact), ignoring later mutation"""
@@ -894,6 +981,11 @@ class Walker:
                             self.refine(g[1], e2, True)
             if n[2] is not None:
                 self.walk(n[2], e2, loops)
+                if n[1]:
+                    # the value of a block with statements: its tail where the block ends (facts about locals changed inside are the ones
+                    # that survived every change)
+                    self.block_tail[id(n)] = self.r.rng(n[2], e2, self.seq)
+                    self._keep.append(n)
             return
         if t == "for":
             pat, it, body = n[1], n[2], n[3]
@@ -914,6 +1006,11 @@ class Walker:
                     m = re.search(r"; (\d+)\]$", (H.mcall(inner).get("recv_ty_unadj") or "").replace("&mut ", "").replace("&", ""))
                     if m:
                         enum_bound = (0, int(m.group(1)) - 1)
+                if enum_bound is None:
+                    # the index of `enumerate()` over anything whose length is bounded
+                    lb = self.r.len_bound(inner, env, self.seq)
+                    if lb is not None and lb >= 1:
+                        enum_bound = (0, lb - 1)
             iters = self.r.len_bound(it, env, self.seq)
             inits = {}
             for nm in sorted(mutated_names(body)):
@@ -921,7 +1018,18 @@ class Walker:
                 ir = self.init_range(nm, env) if ups else None
                 if iters is not None and ups and ir is not None:
                     inits[nm] = (ir[0], ir[1] + iters * sum(ups))
+            lens = {}
+            for nm in sorted(grown_names(body)):
+                cur = env.get("#len:" + nm, self.seq)
+                k = self.pushes_of(body, nm)
+                if iters is not None and k is not None and cur is not None and cur[0] == "len":
+                    lens[nm] = cur[1] + iters * k
             self.loop_entry(n, env)
+            for nm, hi_ in lens.items():
+                # the collection grows only by `push` (k per iteration, none in an inner loop or closure) and the loop runs at most
+                # `iters` times: its length stays within len + iters * k, inside the loop and after it
+                self.seq += 1
+                env.set("#len:" + nm, ("len", hi_), self.seq)
             for nm, (lo_, hi_) in inits.items():
                 # x changes only by `x += c` (c >= 0 constant) and the loop runs at most `iters` times: x stays within init + iters * c,
                 # inside the loop and after it
@@ -982,12 +1090,15 @@ class Walker:
                 env.set("#ref:" + nm, ("ref", lo_, hi_after), self.seq)
             return
         if t == "closure":
+            # a closure may run any number of times, later: what it changes is unknown from here on, inside it and after it
+            self.loop_entry(n, env)
             e2 = env.child()
             self.seq += 1
             for p in n[2]:
                 if H.tag(p) == "bind":
                     e2.set(p[1], ("type", p[4]), self.seq)
             self.walk(n[3], e2, loops)
+            self.loop_entry(n, env)
             return
         if t == "match":
             self.walk(n[1], env, loops)
@@ -999,6 +1110,10 @@ class Walker:
                 for q in H.walk(pat):
                     if H.tag(q) == "bind":
                         e2.set(q[1], ("type", q[4]), self.seq)
+                pr = self.pat_range(pat)
+                if sr is not None and pr is not None and (pr[1] < sr[0] or pr[0] > sr[1]):
+                    # no value of the scrutinee matches this arm: what stands in it is never executed
+                    e2.set("#dead", ("dead-arm", f"the scrutinee {H.short(n[1], maxlen=60)} is within {sr}, the arm matches {pr}"), self.seq)
                 if H.tag(pat) == "lit" and pat[1] == "int" and guard is None:
                     seen_lits.append(int(pat[2]))
                 elif H.tag(pat) == "bind" and pat[5] is None and sr is not None:
@@ -1046,12 +1161,23 @@ class Walker:
                 self.walk(c, env, loops)
         if t in ("asg", "asgop"):
             self.assigned(n, env)
+        elif t == "mcall" and n[2] in Ranger.GROWING + ("clear", "truncate", "pop", "remove", "drain", "retain", "dedup", "swap_remove", "split_off"):
+            nm = H.local_name(H.strip_refs(H.mcall(n)["recv"]))
+            if nm and not loops:
+                # outside loops: one push is one more element; anything else that changes the length ends the fact
+                cur = env.get("#len:" + nm, self.seq)
+                self.seq += 1
+                env.kill("#len:" + nm, self.seq)
+                if n[2] in ("push", "push_back", "push_front") and cur is not None and cur[0] == "len":
+                    self.seq += 1
+                    env.set("#len:" + nm, ("len", cur[1] + 1), self.seq)
         elif t == "refmut":
             nm = H.local_name(H.strip(n[1]))
             if nm:
                 self.seq += 1
                 self.last_assign[nm] = self.seq
                 env.kill("#ref:" + nm, self.seq)
+                env.kill("#len:" + nm, self.seq)
 
 
 class NotPure(Exception):
